@@ -29,6 +29,8 @@ for cls in ["close","unsubscribe","close+unsubscribe"]:
     known("C07","connops-C07","missing-leave:server-side:"+cls,"server-side subscribe racing a "+cls+": observers end with [leave, join] - the stale join is never followed by a leave")
 known("C07","connops-C07","join-count:server-side:close","Node.Subscribe racing a disconnect: Client.Subscribe returns on the failed subscribe-push write before publishJoinAndPresence, the committed subscription's join is never published although its leave is")
 known("C07","connops-C07","join-count:server-side:close+unsubscribe","same as join-count:server-side:close with an additional racing unsubscribe")
+known("C07","connops-C07","leave-before-join:client-side:unsubscribe","client subscribe with an asynchronous callback followed by a client unsubscribe that arrives after commitSubscription and before subscribeCmd has published the join (two deviations): the unsubscribe sees a committed subscription, does not wait, and publishes leave before the join")
+known("C07","connops-C07","missing-leave:client-side:unsubscribe","same schedule: observers end with [leave, join]")
 for cls in ["close","close+unsubscribe"]:
     known("C07","connops-C07","leave-before-join:client-side:"+cls,"client subscribe racing a connection close (Client.Disconnect / Node.Disconnect / transport close): close() sees the committed subscription and publishes leave before subscribeCmd has published the join")
     known("C07","connops-C07","missing-leave:client-side:"+cls,"client subscribe racing a connection close: observers end with [leave, join]")
@@ -65,8 +67,7 @@ for sig,what in [("panic-extractPushData:p-header-lt3","extractPushData(\"__p__\
     fixed("C33","pushx",sig,"c2b5f70f",what+" -> panic in the PUB/SUB decoder (crashes the node)")
 fixed("C15","filterx","match:in:absent-key","49768f1a","filter {key k, cmp in, vals [\"\",\"a\"]} matched a tag map without k (absent key treated as \"\")")
 fixed("C15","filterx","match:nin:absent-key","49768f1a","filter {key k, cmp nin, vals [\"a\",\"\"]} did not match a tag map without k")
-fixed("C07","connops-C07","leave-before-join:client-side:unsubscribe","3083e36b","async subscribe callback + client unsubscribe [sub,unsub]: the unsubscribe waiting on the in-flight subscribe was released before the join was published; observers saw [leave, join]")
-fixed("C07","connops-C07","missing-leave:client-side:unsubscribe","3083e36b","same history: observers ended with a stale join")
+fixed("C07","connops-C07","leave-before-join:client-side:unsubscribe[wait-gate-released-before-join]","3083e36b","async subscribe callback + client unsubscribe [sub,unsub] at one deviation: the unsubscribe waiting on the in-flight subscribe was released when subscribeCmd returned, before handleSubscribe published the join; observers saw [leave, join]. (The narrower window between commit and join publication remains, see the known entries.)")
 fixed("C10","connops-C10","push-outside-bracket:publication:non-positioned:before-open:client-side","2b197317","client subscribe racing a publication without offset: writePublication skipped the flagSubscribed check and the publication was written before the subscribe reply")
 fixed("C19","dedupx","want-version:got-accept:after-unversioned-publish","78b792d3","Memory broker: pub(v=1), pub(unversioned), pub(v=1) accepted the third publication (memstream.Add reset the version)")
 fixed("C19","dedupx","got-idempotency:key-used-on-other-channel-only","e4820e26","Memory broker: pub(\"a\", idem \"b_c\") made pub(\"a_b\", idem \"c\") look like a duplicate (cache key ch+\"_\"+key)")
